@@ -1,0 +1,40 @@
+//! Child module of `dns_cache`: canonical dump of the record cache (verification only).
+use super::*;
+use crate::dns_parser::verif_wire::dump_record;
+use std::fmt::Write as _;
+
+impl DnsCache {
+    pub(crate) fn verif_dump(&self, now: u64) -> String {
+        let mut s = String::new();
+        let maps: [(&str, &HashMap<String, Vec<DnsRecordIntf>>); 5] = [
+            ("ptr", &self.ptr),
+            ("srv", &self.srv),
+            ("txt", &self.txt),
+            ("addr", &self.addr),
+            ("nsec", &self.nsec),
+        ];
+        for (label, map) in maps {
+            let mut keys: Vec<_> = map.keys().collect();
+            keys.sort();
+            for k in keys {
+                let _ = writeln!(s, "cache {label} {k} n={}", map[k].len());
+                // Vector order is behaviour-relevant (`first()`, `find()`), so it is kept.
+                for r in map[k].iter() {
+                    let _ = writeln!(
+                        s,
+                        "  {} src={}:{}",
+                        dump_record(r.record.as_ref(), now),
+                        r.src_intf.index,
+                        r.src_intf.name
+                    );
+                }
+            }
+        }
+        let mut st: Vec<_> = self.subtype.iter().collect();
+        st.sort();
+        for (k, v) in st {
+            let _ = writeln!(s, "cache subtype {k} -> {v}");
+        }
+        s
+    }
+}
